@@ -72,6 +72,19 @@ def handle (cs obs : String) : String × Bool × String :=
       if ra > bound then s!"ran ahead of the consumer by {ra} > {bound}"
       else if pulled > handed + bound then s!"pulled {pulled} elements in total for {handed} delivered: more than {bound} ahead"
       else "run did not complete cleanly"
+    if kind == "ccons" then
+      -- concurrent consume: spec-only on the observation (`C05_runahead_consume`: pulled − handed ≤ c + 1 while nothing
+      -- failed or was cancelled; after a failing callback (mf=k) the producer stops: everything pulled until the terminal is
+      -- gone stays within 2c + 2 of the callbacks handed out)
+      let c := kv.nat "c"
+      let failing := (kv.str "mf") != ""
+      let ok := o.nat "leak" 1 == 0 && ra ≤ c + 1 &&
+        (if failing then o.str "res" == "user" && pulled ≤ handed + 2 * c + 2 else o.str "res" == "ok" && handed == ln && pulled == ln)
+      (obs, ok, if ok then "" else
+        if ra > c + 1 then s!"the producer ran ahead of the callbacks by {ra} > {c + 1}"
+        else if failing && pulled > handed + 2 * c + 2 then s!"pulled {pulled} elements although the callback failed after {handed} were handed out"
+        else "run did not complete as expected")
+    else
     if kind == "buffered" then
       let cfg : Buffered.Cfg := { n := ln, size := kv.nat "n" }
       let (s, m) := bufLoop cfg lim (ln + 2) (Buffered.init cfg) 0
